@@ -28,4 +28,11 @@ theorem iat_addenda_counted_are_written :
 theorem adv_addenda_written :
     (fieldsOf "struct:ADVEntryDetail").all (fieldsOf "Writer.writeBatch").contains = true := by decide
 
+/-- C05: every SEC-specific `Create` is "build, then Validate" — `Batch.build` is the model of `Ach.Model.Create`
+(C05's theorems), `BatchXXX.Validate` the translated validator of `Ach.Props.Validators`; there is one wrapper per SEC
+code, and one for IAT batches -/
+theorem create_wrappers_are_build_then_validate :
+    createWrappers.all (fun w => w.2 == "if err := r.build(); err != nil { return err }; return r.Validate()") = true ∧
+    createWrappers.length = 23 := by decide
+
 end Ach.Props.Addenda
